@@ -315,6 +315,13 @@ pub fn header_parser(i: &[u8]) -> IResult<&[u8], (BlockType, Headers, bool)> {
     // "Armor Headers" ('headers')
     let (i, (typ, headers)) = armor_header(i)?;
 
+    // The individual header lines are parsed with `complete`: input that ends in the
+    // middle of a line looks like "no more headers". Ask for more data in that case,
+    // instead of failing on what is only the beginning of the next line.
+    if !i.contains(&b'\n') {
+        return Err(nom::Err::Incomplete(nom::Needed::Unknown));
+    }
+
     // "A blank (zero length or containing only whitespace) line"
     let (i, _) = pair(space0, line_ending).parse(i)?;
 
